@@ -12,7 +12,9 @@ Values and expression trees travel in postfix (RPN) token form, tokens separated
 
 Requests:
   `val <dev> <op> <l> <r>`                → model and specification value of one operator application
-  `run <dev> <wrap> <root> <tree> <data>` → per-element verdicts; `<root>` is `self` (Script.Match:
+  `run <dev> <wrap> <root> <tree> <data>` → per-element verdicts; `<wrap>` is `1` (Script(): a bare path laid out as
+          `path exists true`), `0` (Filter(): the path alone) or `o` (as `0`, evaluated as before 6b93c2a);
+          `<root>` is `self` (Script.Match:
           `$` is the element), `doc` (Expr.Get: `$` is the filtered container) or `nil` (Script.Eval)
 
 `<dev>` is the set of deviations the model carries: letters `u` (uncomparable panic), `q`
@@ -219,13 +221,14 @@ def handle : List String → String
   | ["run", dv, wrap, rootMode, ts, ds] =>
     match parseDev dv, parseTm ts, parseVal ds with
     | some d, some t, some data =>
-      if wrap ≠ "0" && wrap ≠ "1" then "bad-op"
+      if wrap ≠ "0" && wrap ≠ "1" && wrap ≠ "o" then "bad-op"
       else if rootMode ≠ "self" && rootMode ≠ "doc" && rootMode ≠ "nil" then "bad-op"
       else
         let prog := compile (wrap = "1") t
         let els := elements data
         let rootOf := fun (e : Val) => if rootMode = "self" then e else if rootMode = "doc" then data else Val.null
-        let model := fun (d : Dev) => String.ofList (els.map fun e => verdict (matchElem d litRx prog e (rootOf e)))
+        let run := if wrap = "o" then matchGeneral else matchElem
+        let model := fun (d : Dev) => String.ofList (els.map fun e => verdict (run d litRx prog e (rootOf e)))
         let spec := String.ofList (els.map fun e => if Spec.matches litRx t e (rootOf e) then 't' else 'f')
         "S:" ++ spec ++ "|M:" ++ model d ++ "|F:" ++ model Dev.fixed
           ++ "|u:" ++ model (without d 'u') ++ "|q:" ++ model (without d 'q') ++ "|v:" ++ model (without d 'v')
